@@ -80,6 +80,10 @@ func zzH_C03_strict() {
 		zzAssume(zzAny(zzBigLt(r, lo), zzBigLe(hi, r)))
 		zzAssume(zzAny(zzBigLt(s, lo), zzBigLe(hi, s)))
 	}
+	if typ >= 3 {
+		// blob and set-code transactions store V, R, S as 256-bit words
+		zzAssume(zzBigLt(v, new(big.Int).Lsh(big.NewInt(1), 256)))
+	}
 	tx := zzTx(typ, txChain, v, r, s)
 
 	_, err := signer.Sender(tx)
